@@ -129,6 +129,13 @@ Theorem C13_move_dupevent_refuted :
     o_events o = Some [DListener 1 0] /\ o_events o' = Some [DListener 1 1].
 Proof. exact move_dupevent_refuted. Qed.
 
+(* Round 7: the two class predicates of the run-time matcher decide exactly what they are named after. *)
+Theorem C13_classes_exact : forall p,
+  (kf_dupdef p = false <-> NoDup (map t_name (all_types p))) /\
+  (kf_dupevent p = false <->
+   forall a b, In a (all_events p) -> In b (all_events p) -> e_name a = e_name b -> e_pay a = e_pay b).
+Proof. exact (fun p => conj (kf_dupdef_spec p) (kf_dupevent_spec p)). Qed.
+
 (* stated, not asserted: the s-expression encoder of parsed items is injective, which would turn the
    right-hand side of C13_oracle_same_items into ma = mb (a nested induction over ty / ex / tk, not done) *)
 Definition C13_sx_item_injective_full_statement : Prop := forall a b : item, sx_item a = sx_item b -> a = b.
@@ -178,6 +185,8 @@ Proof. split; cbn.
     apply perm_skip. apply perm_swap. Qed.
 
 (* ---- round 7 examples ---- *)
+Example C13_ex_classes : NoDup (map t_name (all_types ex_p)) /\ kf_dupdef p_dupdef = true /\ kf_dupevent p_dupevent = true.
+Proof. split; [apply (proj1 (C13_classes_exact ex_p)); reflexivity|split; reflexivity]. Qed.
 From Coq Require Import String.
 Local Open Scope string_scope.
 Local Open Scope list_scope.
@@ -231,3 +240,4 @@ Print Assumptions C13_oracle_printer_injective.
 Print Assumptions C13_oracle_same_items.
 Print Assumptions C13_move_dupdef_refuted.
 Print Assumptions C13_move_dupevent_refuted.
+Print Assumptions C13_classes_exact.
